@@ -615,7 +615,12 @@ def m_join(reg, eng, st, recv, args, kwargs, node, rexpr):
 
 
 def m_strip(reg, eng, st, recv, args, kwargs, node, rexpr):
-    raise OutOfSubset("str.strip")
+    """s.strip() without arguments: ONE uninterpreted function of s; the only fact stated is that the result is a contiguous part of s."""
+    if args or kwargs or recv.t != ("str",):
+        raise OutOfSubset("str.strip with arguments / on a non-str")
+    res = z3.Function("str_strip", z3.StringSort(), z3.StringSort())(recv.x)
+    st.assume(z3.Contains(recv.x, res))
+    return [(st, vstr(res))]
 
 
 def m_split(reg, eng, st, recv, args, kwargs, node, rexpr):
